@@ -194,7 +194,10 @@ def parse_layout_prints(ctx, out, cases, units):
 def replay_layouts(ctx):
     rng = random.Random(ctx.seed)
     allcases = _fid.tlc_cases(ctx, "Gen_Store", "Gen_Store.cfg", timeout=300)
-    cases = [c for c in allcases if c.get("what") != "vint"]
+    cases = [c for c in allcases if c.get("what") not in ("vint", "manyvals")]
+    ctx.many_cases = [c for c in allcases if c.get("what") == "manyvals"]
+    if len(ctx.many_cases) < 10:
+        raise vlib.ToolError("Gen_Store produced no many-values cases")
     ctx.vint_cases = [c for c in allcases if c.get("what") == "vint"]
     if len(ctx.vint_cases) < 27:
         raise vlib.ToolError("Gen_Store produced no length-prefix boundary cases")
@@ -244,6 +247,9 @@ def length_prefix_values(ctx):
     (2^7, 2^14, 2^21 - enumerated by TLC from Store!VintSwitches); long values travel as (length, hash, head, tail)"""
     vs = sorted(ctx.vint_cases, key=lambda c: (c["len"], c["kind"]))
     specs = [{"big": {"kind": c["kind"], "len": c["len"], "seed": 7 + i}} for i, c in enumerate(vs)]
+    # documents with many interleaved values (TLC-generated numbers of values / fields), read back through
+    # to_named_doc / to_json as well: per field the order added
+    specs += [{"many": {"n": c["n"], "nfields": c["nfields"]}} for c in ctx.many_cases]
     cut = len(specs) // 2
     cases = []
     for i, (comp, thread, mc) in enumerate([("lz4", False, None), ("none", True, "lz4")] if not ctx.quick else [("lz4", False, None)]):
